@@ -666,8 +666,12 @@ class CodeGenMapper(Mapper[ImplementedResult, Never, [CodeGenState]]):
 
         self.rec(expr._container, state)
 
-        assert expr in state.results
-        return state.results[expr]
+        # The container records its results under its own (untagged) entries;
+        # *expr* may be a tagged copy of such an entry, and tags must not change
+        # what is computed.
+        result = state.results[expr._container[expr.name]]
+        state.results[expr] = result
+        return result
 
     def map_loopy_call(self, expr: LoopyCall, state: CodeGenState) -> None:
         self.has_loopy_call = True
